@@ -74,13 +74,15 @@ def rand_tree(rng, depth, bits):
     return "(%s %s %s)" % (a, op, b)
 
 
-def decide(run, texts, leg, shards, timeout_ms=4000):
+def decide(run, texts, leg, shards, timeout_ms=4000, min_per_shard=300):
     import time
     t0 = time.time()
     jobs = [{"qs": t} for t in texts]
     res = evalkit.run_eval(jobs, ctx="empty", timeout_ms=timeout_ms, shards=shards, tag="c01" + leg)
+    t1 = time.time()
     events = [evalkit.slim_event(r) for r in res]
-    verdicts, st = evalkit.judge(events, "Trace_Eval", shards=shards, tag="c01j" + leg)
+    verdicts, st = evalkit.judge(events, "Trace_Eval", shards=shards, tag="c01j" + leg, min_per_shard=min_per_shard)
+    log("[C01] leg %s: eval %.1fs judge %.1fs" % (leg, t1 - t0, time.time() - t1))
     run.cov["states"] += st["distinct"]
     run.cov["transitions"] += st["generated"]
     run.traces(len(events))
@@ -154,17 +156,17 @@ def run(tier, seed):
     run.sample({"leg": "lit", "q": t3[len(t3) // 2]})
 
     # V: seeded random trees with big operands (sizes follow the measured cost of the TLA+ bignum)
-    n_big = 3000 if thorough else 150
-    tv = [rand_tree(rng, rng.randint(2, 4 if thorough else 3), 256 if thorough else 128) for _ in range(n_big)]
+    n_big = 8000 if thorough else 600
+    tv = [rand_tree(rng, rng.randint(2, 5 if thorough else 4), 512 if thorough else 256) for _ in range(n_big)]
     # huge integer operands (no denominators): + - * mod and or xor shifts
-    for _ in range(100 if thorough else 10):
-        bits = rng.choice([2000, 3000, 4000]) if thorough else 1500
+    for _ in range(300 if thorough else 40):
+        bits = rng.choice([2000, 3000, 4000]) if thorough else 2000
         a, b, c = (rng.getrandbits(bits) for _ in range(3))
         op1 = rng.choice(["+", "-", "*", "mod", "and", "or", "xor"])
         op2 = rng.choice(["+", "-", "mod", "and", "or", "xor", "<<", ">>"])
         rhs = str(rng.randint(0, 90)) if op2 in ("<<", ">>") else hex(c | 1)
         tv.append("((%s%d %s %s) %s %s)" % (rng.choice(["", "-"]), a, op1, hex(b | 1), op2, rhs))
-    s4, a4 = decide(run, tv, "big", 16 if thorough else 14, timeout_ms=20000)
+    s4, a4 = decide(run, tv, "big", 16 if thorough else 14, timeout_ms=20000, min_per_shard=8)
     run.sample({"leg": "big", "q": tv[0][:300]})
     run.note("silent_cases", {"flat": s1, "tree": s2, "lit": s3, "big": s4})
     run.note("ast_differences", a1 + a2 + a3 + a4)
